@@ -401,9 +401,15 @@ class Ref:
         elif op[0] == "ld":
             self._install(op[1], self.trees[op[2]])
         elif op[0] == "ex":
-            r = self.refs[op[1]]
+            s = op[1]
+            r = self.refs[s]
             if r is None:
                 return False
+            if self.base[s] is not None and self.refs[self.base[s]] == r:
+                # a reform that still refers to its baseline's object gets a copy of its own first (repair C14f):
+                # the baseline, and whoever else refers to the old object, keep it
+                self.objs.append(self.objs[r])
+                r = self.refs[s] = len(self.objs) - 1
             kids, ok = list(self.objs[r][1]), True
             for name, sub in self.trees[op[2]][1]:
                 if name in dict(kids):
@@ -1675,8 +1681,9 @@ def corpus():
                          f"md:2:u,taxes.rate,{d18},-,1/2+c,benefits,added,1;ra:2:0:{d18}:-;ra:1:0:{d18}:-;ra:0:0:{d18}:-;rb:2:0:{d18}:-;"
                          f"md:1:u,taxes.rate,{d18},-,3/4;ra:2:0:{d18}:taxes;ra:1:0:{d18}:taxes;rb:1:1:{d18}:benefits;"
                          f"ra:2:1:{d18}:benefits.added.benefits.basic_income 2 {bi} {bi2}", payload={"style": 30}, tags=("corpus", "chain")))
-    # load_extension changes the tree object in place: the un-modified reform 1 follows, reform 2 (own tree) does not;
-    # a second load of the same extension stops at the first name and leaves the views on the tree
+    # load_extension on the baseline changes the tree object in place: the un-modified reform 1 follows, reform 2 (own
+    # tree) does not; loaded on the un-modified reform 1 it goes to a copy (the baseline keeps its tree); a load that meets
+    # a name already present stops there and leaves the views on the tree
     ext = f"N 2 e_x P {d15}:5 e_sub N 1 a P {d15}:6"
     ext2 = f"N 3 e_y P {d15}:8 taxes P {d15}:9 e_z P {d15}:10"
     out.append(Case(line=f"pview h 0 nr:0:0;nr:0:1;md:2:u,taxes.rate,{d18},-,1/2;ra:0:0:{d18}:-;ra:1:0:{d18}:-;ra:2:0:{d18}:-;ex:0:1;"
@@ -1687,6 +1694,11 @@ def corpus():
     again = [f"ra:{i % 2}:{i % 3}:{d15 + 7 * i}:benefits.basic_income" for i in (0, 1, 2, 3, 137, 138, 139)]
     out.append(Case(line=f"pview h 0 nr:0:0;{';'.join(many)};md:1:u,benefits.basic_income,{d15 + 100},-,777;{';'.join(again)};ld:0:1;{';'.join(again)} 2 {bi} {bi2}",
                     payload={"style": 32}, tags=("corpus", "memo-eviction")))
+    # the chain base -> r1 -> r2, all three on one object: an extension loaded on r1 goes to r1's copy (base and r2 keep the
+    # old object); one then loaded on r2 — whose baseline r1 no longer refers to that object — is merged in place into it
+    out.append(Case(line=f"pview h 0 nr:0:0;nr:1:0;ra:0:0:{d18}:-;ra:1:0:{d18}:-;ra:2:0:{d18}:-;ex:1:1;ra:0:0:{d18}:-;ra:1:0:{d18}:-;"
+                         f"ra:2:0:{d18}:-;rb:2:0:{d18}:-;ex:2:2;ra:0:0:{d18}:-;ra:1:0:{d18}:-;ra:2:0:{d18}:-;ex:1:2;ra:1:0:{d18}:-;ra:2:0:{d18}:- "
+                         f"3 {bi} {ext} {ext2}", payload={"style": 33}, tags=("corpus", "extension", "chain")))
     # F-C07b: a sub-node by name after a vector index
     housing = (f"N 1 g N 2 z1 N 2 owner N 2 k1 P {d15}:1 k2 P {d15}:2 tenant N 2 k1 P {d15}:3 k2 P {d15}:4 "
                f"z2 N 2 tenant N 2 k2 P {d15}:8 k1 P {d15}:7 owner N 2 k1 P {d15}:5 k2 P {d15}:6")
@@ -1764,7 +1776,8 @@ PROP = Prop(
         "functools.lru_cache is modelled as a most-recently-used list of at most 128 entries keyed by (system, spelling of the instant, date); "
         "the theorems hold for any capacity",
         "tree objects have an identity in the model: a reform refers to its baseline's object until one of them replaces its tree "
-        "(Reform.modify_parameters installs a deep copy, load_parameters a new tree); load_extension merges IN PLACE into that object "
+        "(Reform.modify_parameters installs a deep copy, load_parameters a new tree); load_extension merges IN PLACE into that object, "
+        "after giving a reform that still shares its baseline's object a copy of its own (repair C14f) "
         "(real importable packages are built in a temporary directory; os.listdir is pinned to the declared order for the extension's "
         "parameters directory, because the merge stops at the first name already present); assigning `system.parameters = …` on a system "
         "whose view was already read, and in-place edits of a live tree by other means, are not documented routes and are not generated",
